@@ -378,6 +378,56 @@ Definition oracle_c10 (k : acase) (o : obs) : list Z :=
   end.
 
 (* ====================================================================================== *)
+(* C02 beyond Add/Sub/Mul/Quo/Round: the flags of Quantize, RoundToIntegralExact, QuoInteger, Rem and
+   Reduce, recomputed from the exact result alone (values are C09's / C10's / C19's business) *)
+Definition O_CONDFLAGS := 28.        (* InvalidOperation / DivisionImpossible raised or missing *)
+
+Definition four_flags (f : cond) (s : sround) : list Z :=
+  flag (Bool.eqb (Inexact f) (s_inexact s)) O_INEXACT
+  ++ flag (Bool.eqb (Subnormal f) (s_subnormal s)) O_SUBNORMAL
+  ++ flag (Bool.eqb (Underflow f) (s_subnormal s && s_inexact s)) O_UNDERFLOW
+  ++ flag (Bool.eqb (Overflow f) (s_overflow s)) O_OVERFLOW.
+
+Definition oracle_c02_ext (k : acase) (o : obs) : list Z :=
+  let c := a_ctx k in
+  let x := a_x k in
+  let y := eff_y k in
+  let f := o_cond o in
+  if negb (wf_case k) || system_err (o_err o) || (prec c =? 0) || negb (is_finite x) then [] else
+  match a_op k with
+  | OQuantize =>
+      let e := a_e k in
+      if (e <? MinExponent) || (e >? MaxExponent) then [] else
+      let '(q, inex) := quantize_int (rounding c) x e in
+      let invalid := (ndigits q >? prec c) || (e <? etiny c) || (e >? emax c)
+                     || (negb (q =? 0) && (e + ndigits q - 1 >? emax c)) in
+      if invalid then flag (InvalidOperation f) O_CONDFLAGS
+      else flag (Bool.eqb (Inexact f) inex) O_INEXACT ++ flag (negb (Underflow f)) O_UNDERFLOW
+           ++ flag (negb (Overflow f)) O_OVERFLOW ++ flag (negb (InvalidOperation f)) O_CONDFLAGS
+  | ORtie =>
+      let '(q, inex) := quantize_int (rounding c) x 0 in
+      if ndigits q - 1 >? emax c then [] else
+      flag (Bool.eqb (Inexact f) inex) O_INEXACT ++ flag (negb (Underflow f)) O_UNDERFLOW
+      ++ flag (negb (Overflow f)) O_OVERFLOW ++ flag (negb (InvalidOperation f)) O_CONDFLAGS
+  | OQuoInteger | ORem =>
+      if negb (is_finite y) || (coeff y =? 0) || (Z.abs (exp x - exp y) >? MaxExponent) then [] else
+      let m := Z.min (exp x) (exp y) in
+      let a := coeff x * 10 ^ (exp x - m) in
+      let b := coeff y * 10 ^ (exp y - m) in
+      let q := a / b in
+      let r := a mod b in
+      let impossible := ndigits q >? prec c in
+      flag (Bool.eqb (DivisionImpossible f) impossible) O_CONDFLAGS
+      ++ (if impossible then [] else
+          match a_op k with
+          | ORem => four_flags f (spec_flags (prec c) (emin c) (emax c) (rounding c) (mkExact (neg x) r 1 m))
+          | _ => flag (negb (Inexact f || Subnormal f || Underflow f || Overflow f)) O_INEXACT
+          end)
+  | OReduce => four_flags f (spec_flags (prec c) (emin c) (emax c) (rounding c) (exact_of_dec x))
+  | _ => []
+  end.
+
+(* ====================================================================================== *)
 (* C15: exact comparison and the documented total order                                    *)
 
 (* sign of a - b for non-NaN a, b; independent of Model.dcmp *)
